@@ -235,11 +235,21 @@ def cut_loops_in_fn(src, fname, specs):
     repl = []
     for spec in specs:
         want = spec["ordinal"]
-        if "expect_loops" in spec and len(loops) != spec["expect_loops"]:
-            raise AnchorLost(
-                f"{spec['id']}: fn {fname} has {len(loops)} for-loops, expected {spec['expect_loops']}")
-        if want >= len(loops):
-            raise AnchorLost(f"{spec['id']}: loop #{want} not found in fn {fname}")
+        # preferred anchor: the unique loop of the function that iterates over the expected expression (robust
+        # against loops being added elsewhere in the function); fallback: ordinal + number of loops
+        norm = lambda t: re.sub(r"\s+", " ", t)
+        by_iter = [i for i, l in enumerate(loops) if "expect_iter" in spec and norm(l[2]) == spec["expect_iter"]]
+        same_iter_specs = [sp2 for sp2 in specs if sp2.get("expect_iter") == spec.get("expect_iter")]
+        if len(by_iter) == len(same_iter_specs) and by_iter:
+            # (several cut loops of one function may share an iterator expression: keep their relative order)
+            rank = sorted(same_iter_specs, key=lambda sp2: sp2["ordinal"]).index(spec)
+            want = by_iter[rank]
+        else:
+            if "expect_loops" in spec and len(loops) != spec["expect_loops"]:
+                raise AnchorLost(
+                    f"{spec['id']}: fn {fname} has {len(loops)} for-loops, expected {spec['expect_loops']}")
+            if want >= len(loops):
+                raise AnchorLost(f"{spec['id']}: loop #{want} not found in fn {fname}")
         start, pat, it, bo, bc = loops[want]
         if "expect_iter" in spec and re.sub(r"\s+", " ", it) != spec["expect_iter"]:
             # the hooks are generic in the iterated set (they receive its value), so a changed iterator
